@@ -52,22 +52,40 @@ Theorem C03_later_operations_see_earlier : forall S d0 ops1 ops2 d,
 Proof. exact exec_ops_app. Qed.
 Print Assumptions C03_later_operations_see_earlier.
 
-(** mutators *)
-Theorem C03_int_add : forall x y, mutate_atom (AInt x) MAdd (AInt y) = MOk (VAtom (AInt (x + y))).
+(** mutators: integers are 64-bit; the exact result when it is representable, the RFC's range error otherwise *)
+Theorem C03_int_add : forall x y, in_int64 (x + y) = true -> mutate_atom (AInt x) MAdd (AInt y) = MOk (VAtom (AInt (x + y))).
 Proof. exact mutate_int_add. Qed.
 Print Assumptions C03_int_add.
-Theorem C03_int_sub : forall x y, mutate_atom (AInt x) MSub (AInt y) = MOk (VAtom (AInt (x - y))).
+Theorem C03_int_sub : forall x y, in_int64 (x - y) = true -> mutate_atom (AInt x) MSub (AInt y) = MOk (VAtom (AInt (x - y))).
 Proof. exact mutate_int_sub. Qed.
 Print Assumptions C03_int_sub.
-Theorem C03_int_mul : forall x y, mutate_atom (AInt x) MMul (AInt y) = MOk (VAtom (AInt (x * y))).
+Theorem C03_int_mul : forall x y, in_int64 (x * y) = true -> mutate_atom (AInt x) MMul (AInt y) = MOk (VAtom (AInt (x * y))).
 Proof. exact mutate_int_mul. Qed.
 Print Assumptions C03_int_mul.
-Theorem C03_int_div : forall x y, y <> 0%Z -> mutate_atom (AInt x) MDiv (AInt y) = MOk (VAtom (AInt (Z.quot x y))).
+Theorem C03_int_div : forall x y, y <> 0%Z -> in_int64 (Z.quot x y) = true -> mutate_atom (AInt x) MDiv (AInt y) = MOk (VAtom (AInt (Z.quot x y))).
 Proof. exact mutate_int_div. Qed.
 Print Assumptions C03_int_div.
 Theorem C03_int_mod : forall x y, y <> 0%Z -> mutate_atom (AInt x) MMod (AInt y) = MOk (VAtom (AInt (Z.rem x y))).
 Proof. exact mutate_int_mod. Qed.
 Print Assumptions C03_int_mod.
+Theorem C03_unrepresentable_result_is_a_range_error : forall x y m,
+  mutate_atom (AInt x) m (AInt y) = MRange <->
+  match m with
+  | MAdd => in_int64 (x + y) = false
+  | MSub => in_int64 (x - y) = false
+  | MMul => in_int64 (x * y) = false
+  | MDiv => y <> 0%Z /\ in_int64 (Z.quot x y) = false
+  | _ => False
+  end.
+Proof. exact mutate_int_range. Qed.
+Print Assumptions C03_unrepresentable_result_is_a_range_error.
+(** non-vacuity: both cases occur at the ends of the range *)
+Theorem C03_range_examples :
+  mutate_atom (AInt 5) MSub (AInt (-9223372036854775808)) = MRange /\
+  mutate_atom (AInt (-1)) MSub (AInt (-9223372036854775808)) = MOk (VAtom (AInt 9223372036854775807)) /\
+  mutate_atom (AInt (-9223372036854775808)) MDiv (AInt (-1)) = MRange.
+Proof. repeat split; reflexivity. Qed.
+Print Assumptions C03_range_examples.
 Theorem C03_division_by_zero_is_a_domain_error : forall x,
   mutate_atom (AInt x) MDiv (AInt 0) = MDomain /\ mutate_atom (AInt x) MMod (AInt 0) = MDomain.
 Proof. intros x. split; [exact (mutate_int_div0 x)|exact (mutate_int_mod0 x)]. Qed.
